@@ -30,6 +30,10 @@ fn gen_opts(prop: &str, rng: &mut Rng, thorough: bool) -> GenOpts {
         "C18" => {
             o.defaults = true;
         }
+        "C06" => {
+            // commands that report dependencies (some of which do not exist afterwards)
+            o.discovers = rng.chance(1, 2);
+        }
         "C19" => {
             o.phony = true;
         }
@@ -58,7 +62,8 @@ fn add_regen(p: &mut Project, rng: &mut Rng) {
     // depend on a real generated file sometimes (settled in phase 1, reused in phase 2)
     let mut imps = vec![];
     if rng.chance(1, 2) {
-        if let Some(s) = p.steps.iter().find(|s| !s.phony) {
+        // up to two generated prerequisites (one may fail while the other succeeds)
+        for s in p.steps.iter().filter(|s| !s.phony).take(rng.range(1, 2)) {
             imps.push(s.outs[0].clone());
         }
     }
@@ -149,13 +154,30 @@ fn one_case(ctx: &Ctx, dir: &std::path::Path, case: u64, seed: u64, rep: &mut Re
     let opts = gen_opts(prop, &mut rng, ctx.thorough());
     let mut proj = gen_project(&mut rng, &opts);
     let mut cfg = CaseCfg { cyclic: None, cycle_is_validation_only: false, undeclared_pool: None };
-    if matches!(prop, "C06" | "C19" | "C01" | "C18") && rng.chance(1, 5) {
+    if matches!(prop, "C06" | "C19" | "C01" | "C18" | "C05") && rng.chance(1, 5) {
         add_regen(&mut proj, &mut rng);
     }
     let mut c04_regen = false;
     if prop == "C04" && !proj.pools.is_empty() && rng.chance(1, 5) {
         add_regen(&mut proj, &mut rng);
         c04_regen = true;
+    }
+    if prop == "C19" && rng.chance(1, 6) {
+        // a real step whose command evaluates to "": not phony, runs, writes nothing
+        let cands: Vec<usize> = (0..proj.steps.len()).filter(|&i| !proj.steps[i].phony && proj.steps[i].effect == Effect::Write).collect();
+        if !cands.is_empty() {
+            let i = *rng.pick(&cands);
+            proj.steps[i].ver = 0;
+            proj.steps[i].effect = Effect::NoOutput;
+        }
+    }
+    if prop == "C06" && rng.chance(1, 4) {
+        // a scratch header: reported by the command, gone when it finishes
+        let cands: Vec<usize> = (0..proj.steps.len()).filter(|&i| proj.steps[i].discovers).collect();
+        if !cands.is_empty() {
+            let i = *rng.pick(&cands);
+            proj.steps[i].extra_reads.push(format!("scratch{}.h", i));
+        }
     }
     if prop == "C06" && rng.chance(1, 3) {
         let validation = rng.chance(1, 2);
@@ -212,7 +234,7 @@ fn one_case(ctx: &Ctx, dir: &std::path::Path, case: u64, seed: u64, rep: &mut Re
             world.next_gens.push(np);
         }
     }
-    if matches!(prop, "C18" | "C17") && rng.chance(1, 2) {
+    if matches!(prop, "C18" | "C17" | "C04") && rng.chance(1, 2) {
         world.ropts.via_vars = true;
     }
     world.init_sources(&mut rng);
@@ -408,12 +430,13 @@ fn one_case(ctx: &Ctx, dir: &std::path::Path, case: u64, seed: u64, rep: &mut Re
             fu.adopt = true;
         }
         let pred2 = predict_inv(&world, &fu);
+        let proj_fu = world.proj.clone();
         let (w, out2) = run_inv(world, &fu);
         world = w;
         rep.evaluations += 1;
         collect(rep, prop, &out2, &world, &fu, case, "follow-up");
         if pred2.error().is_none() {
-            let exp = pred2.expected_runs(&snap.proj);
+            let exp = pred2.expected_runs(&proj_fu);
             let got: Vec<Vec<String>> = out2
                 .started
                 .iter()
